@@ -26,7 +26,7 @@ Import ListNotations.
 Definition tail_kind_eqb (a b : tail_kind) : bool :=
   match a, b with
   | TKRelease, TKRelease | TKLock, TKLock | TKDelete, TKDelete | TKExists, TKExists | TKRead, TKRead
-  | TKWrite, TKWrite | TKList, TKList | TKRaise, TKRaise | TKOther, TKOther => true
+  | TKWrite, TKWrite | TKList, TKList | TKRaise, TKRaise | TKOther, TKOther | TKCompute, TKCompute => true
   | _, _ => false
   end.
 
@@ -46,6 +46,16 @@ Fixpoint deriv (k : tail_kind) (r : tre) : tre :=
   | TSeq a b => if nullable a then TAlt (TSeq (deriv k a) b) (deriv k b) else TSeq (deriv k a) b
   | TAlt a b => TAlt (deriv k a) (deriv k b)
   | TStar a => TSeq (deriv k a) (TStar a)
+  end.
+
+(* what of a tail can be observed at the storage / lock interface: TKCompute steps leave no call behind *)
+Fixpoint observable (r : tre) : tre :=
+  match r with
+  | TCall TKCompute _ => TEps
+  | TSeq a b => TSeq (observable a) (observable b)
+  | TAlt a b => TAlt (observable a) (observable b)
+  | TStar a => TStar (observable a)
+  | _ => r
   end.
 
 Definition tail_accepts (r : tre) (obs : list tail_kind) : bool := nullable (fold_left (fun r k => deriv k r) obs r).
@@ -99,7 +109,8 @@ Definition in_tail (p : pc) : bool := match p with PFlipped | PDone Success => t
 (* `_rollback(delete_files=True)` as the code runs it: no test of the protocol state *)
 Definition delete_written (x : fworld) (a : aid) : fworld :=
   {| fw := fw x; f_present := remove_all (f_written x a) (f_present x); f_refs := f_refs x;
-     f_written := updw a [] (f_written x); f_next := f_next x; f_owner := f_owner x; f_dead := f_dead x |}.
+     f_written := updw a [] (f_written x); f_next := f_next x; f_owner := f_owner x;
+     f_dead := fun b => if Nat.eqb b a then true else f_dead x b |}.     (* ghost: a has run the deleting rollback *)
 
 Definition tstep (r : tre) (txon : exn_class -> bool -> tx_action) (c : cfg) (x : fworld) (ev : tevent) : option fworld :=
   match ev with
